@@ -488,7 +488,10 @@ pub fn case_json(stream: u64, index: u64, mut rest: Vec<(&str, J)>) -> J {
     J::obj(kv)
 }
 
-pub const VERIF_DIR: &str = "/verif";
+/// Root of the verification tree (`VERIF_HOME`, set by `vcheck` to its own directory; default /verif).
+pub fn verif_dir() -> String {
+    std::env::var("VERIF_HOME").unwrap_or_else(|_| "/verif".to_string())
+}
 
 #[derive(Clone, Debug)]
 pub struct Violation {
@@ -620,7 +623,7 @@ impl Run {
     pub fn known_findings(&self) -> Vec<(String, String)> {
         // lines: "finding: property=<id> key=<key> <text>"
         let mut out = Vec::new();
-        if let Ok(t) = std::fs::read_to_string(format!("{VERIF_DIR}/KNOWN_FINDINGS.txt")) {
+        if let Ok(t) = std::fs::read_to_string(format!("{}/KNOWN_FINDINGS.txt", verif_dir())) {
             for l in t.lines() {
                 let l = l.trim();
                 if let Some(rest) = l.strip_prefix("finding:") {
@@ -646,7 +649,7 @@ impl Run {
         let mut code = 0;
         let mut printed_known: BTreeSet<String> = BTreeSet::new();
         let mut n_viol = 0usize;
-        let _ = std::fs::create_dir_all(format!("{VERIF_DIR}/replays"));
+        let _ = std::fs::create_dir_all(format!("{}/replays", verif_dir()));
         let mut seen_keys: BTreeMap<String, usize> = BTreeMap::new();
         let vs = std::mem::take(&mut self.acc.violations);
         for v in vs.iter() {
@@ -662,7 +665,7 @@ impl Run {
                 continue;
             }
             n_viol += 1;
-            let path = format!("{VERIF_DIR}/replays/{}-{}-{}{}.json", self.id, self.tier, n_viol, if self.replay.is_some() { "-replayed" } else { "" });
+            let path = format!("{}/replays/{}-{}-{}{}.json", verif_dir(), self.id, self.tier, n_viol, if self.replay.is_some() { "-replayed" } else { "" });
             let doc = J::obj(vec![
                 ("property_id", J::s(self.id.clone())),
                 ("tier", J::s(self.tier.clone())),
@@ -725,8 +728,8 @@ impl Run {
                 ("known_findings_matched".into(), J::U(printed_known.len() as u64)),
                 ("verdict".into(), J::s(match code { 0 => "held", 1 => "violated", _ => "inconclusive" })),
             ]);
-            let _ = std::fs::create_dir_all(format!("{VERIF_DIR}/evidence"));
-            let path = format!("{VERIF_DIR}/evidence/{}.json", self.id);
+            let _ = std::fs::create_dir_all(format!("{}/evidence", verif_dir()));
+            let path = format!("{}/evidence/{}.json", verif_dir(), self.id);
             std::fs::write(&path, doc.render() + "\n").expect("write evidence");
         }
         println!(
